@@ -43,3 +43,16 @@ Definition failing {A} (chk : A -> bool) (l : list A) : list nat := failing_from
 Record dcase := { d_cls : nat; d_input : list Z; d_dec : res (value * list Z) }.
 Definition check_dcase (R : penv) (ec : list Z) (k : dcase) : bool :=
   res_eqb dec_eqb (decode R ec (d_cls k) (d_input k)) (d_dec k).
+
+(* wire-first case (C02/C03/C05): a decorated value, the bytes an independent (Python) reference
+   encoder produced for it, the input handed to the reader, and what the implementation's reader
+   returned.  Checks that the Coq specification produces the same bytes, that the decorated
+   value is conforming, and that the decoder model agrees with the implementation. *)
+From KioV Require Import Schema.Introspect Codec.WireSpec.
+Record ccase := {
+  c_cls : nat; c_dv : dvalue; c_bytes : list Z; c_input : list Z; c_dec : res (value * list Z)
+}.
+Definition check_ccase (E : list cplan2) (R : penv) (ec : list Z) (k : ccase) : bool :=
+  res_eqb zlist_eqb (spec_enc E (c_cls k) (c_dv k)) (Ok (c_bytes k))
+  && conforming E ec (c_cls k) (c_dv k)
+  && res_eqb dec_eqb (decode R ec (c_cls k) (c_input k)) (c_dec k).
